@@ -414,6 +414,7 @@ Definition lib_call (k : libk) (args : list value) (kws : list (str * value)) : 
   | [] =>
       match k with
       | LDecimal => match args with
+                    | [] => Some (VDecimal (lit "0"))       (* Decimal() *)
                     | [VStr s] => match dec_parse s with Some _ => Some (VDecimal s) | None => None end
                     | _ => None end
       | LQName => match args with [VStr s] => Some (VQName s) | _ => None end
